@@ -13,7 +13,7 @@ SPECS = {}
 DNSMSG_COMMON = {"harness/dnsmsg/zz_verif_common_test.go": "internal/dnsmsg/zz_verif_common_test.go"}
 
 TRANSPORT_COMMON = {"harness/transport/zz_verif_common_test.go": "internal/upstream/transport/zz_verif_common_test.go"}
-E3ENGINES = ("choice", "report", "refdns", "env", "sched")
+E3ENGINES = ("choice", "report", "refdns", "env", "sched", "pause", "psync")
 
 UPSTREAM_COMMON = {"harness/upstream/zz_verif_common_test.go": "internal/upstream/zz_verif_common_test.go"}
 
@@ -35,6 +35,36 @@ def rewrite_imports(src_rel, mapping):
         return {src_rel: out}
     return gen
 
+
+def instrument(files, skip="", also=None):
+    """generate() callback for the E4 pause-point explorer: overlay copies of <files> (repo-relative, read from the current
+    working tree) with a pause point before every statement and "sync" swapped for the lock-counting shim (tools_instr)."""
+    def gen(scratch, repo):
+        import os, subprocess
+        tool = os.path.join(scratch, "instr_tool")
+        if not os.path.exists(tool):
+            env = dict(os.environ, GOPROXY="off", GOSUMDB="off", GOTOOLCHAIN="local", GOFLAGS="")
+            r = subprocess.run(["go", "build", "-o", tool, "."], cwd=os.path.join(os.path.dirname(os.path.abspath(__file__)), "tools_instr"),
+                               env=env, capture_output=True, text=True)
+            if r.returncode != 0:
+                raise SystemExit("HARNESS-ERROR: cannot build tools_instr: " + r.stderr)
+        out = {}
+        for rel in files:
+            src = os.path.join(repo, rel)
+            if not os.path.exists(src):
+                raise SystemExit("HARNESS-ERROR: %s not found" % rel)
+            dst = os.path.join(scratch, "instr_" + rel.replace("/", "_"))
+            r = subprocess.run([tool, "-out", dst, "-skip", skip, src], capture_output=True, text=True)
+            if r.returncode != 0:
+                raise SystemExit("HARNESS-ERROR: instrumenting %s failed: %s" % (rel, r.stderr))
+            out[rel] = dst
+        if also:
+            out.update(also(scratch, repo))
+        return out
+    return gen
+
+
+E4ENGINES = ("choice", "report", "refdns", "env", "sched", "pause", "psync")
 
 E2ENGINES = ("choice", "report", "refdns", "env", "sched", "vsync", "vxsync", "votter")
 
@@ -539,6 +569,28 @@ for _pid in ("C07", "C08"):
 SPECS["C08"]["parts"].append(dict(name="mem-lifetime", pkg="internal/cache", run="TestVerifC08Mem", go="go1.26", env=E3ENV, gomaxprocs=1, engines=("choice", "report"), shards=8,
                                   files={"harness/cache/zz_verif_c08mem_test.go": "internal/cache/zz_verif_c08mem_test.go"},
                                   params={"quick": {"DEPTH": 3}, "thorough": {"DEPTH": 5}}, budget={"quick": 60, "thorough": 900}))
+
+# ---- E4 pause-point parts (DESIGN 9.13): the E3 explorations again, on overlay copies of the implementation files that carry a
+# pause point before every statement; one goroutine may stand still between two statements while further events happen.
+TRANSPORT_SRC = ["internal/upstream/transport/" + f for f in ("reuse_transport.go", "pipeline_conn.go", "pipeline_transport.go", "quic_transport.go", "doh_transport.go", "utils.go")]
+
+
+def _preempt(name, run, files, params, budget=None, **kw):
+    d = dict(name=name, pkg="internal/upstream/transport", run=run, go="go1.26", env=E3ENV, gomaxprocs=1, engines=E4ENGINES,
+             files=dict(TRANSPORT_COMMON, **{"harness/transport/" + f: "internal/upstream/transport/" + f for f in files}),
+             generate=instrument(TRANSPORT_SRC), params=params, budget=budget or {"quick": 60, "thorough": 600})
+    d.update(kw)
+    return d
+
+
+SPECS["C06"]["parts"].append(_preempt("reuse-preempt", "TestVerifC06", ["zz_verif_c06_test.go"],
+                                      {"quick": {"PAUSE": 1, "DEPTH": 4, "FAULTS": 1, "CALLS": 2}, "thorough": {"PAUSE": 1, "PAUSEHITS": 2, "DEPTH": 6, "FAULTS": 2, "CALLS": 3}}))
+
+SPECS["C05"]["parts"].append(_preempt("pipeline-preempt", "TestVerifC05", ["zz_verif_c05_test.go"],
+                                      {"quick": {"PAUSE": 1, "DEPTH": 4, "FAULTS": 1, "CALLS": 2}, "thorough": {"PAUSE": 1, "PAUSEHITS": 2, "DEPTH": 6, "FAULTS": 2, "CALLS": 3}}))
+
+SPECS["C18"]["parts"].append(_preempt("transports-preempt", "TestVerifC18", ["zz_verif_c18_test.go", "zz_verif_c14_test.go"],
+                                      {"quick": {"PAUSE": 1, "DEPTH": 4, "FAULTS": 1}, "thorough": {"PAUSE": 1, "PAUSEHITS": 2, "DEPTH": 5, "FAULTS": 2}}))
 
 # --------------------------------------------------------------------------------------------
 # Properties not (yet) claimed. Kept current: every property without a SPECS entry must be here.
